@@ -8,6 +8,7 @@ undirected assortativity over Model/Measures.lean (both replayed here).  Predica
 the real code (pairs of public functions on the same matrix)."""
 import sys
 from common import *  # noqa
+sys.path.insert(0, os.path.join(VERIF, 'translate')); import cores  # noqa: E402
 import cluster_common as cc
 from cluster_common import F
 
@@ -21,7 +22,7 @@ def flat(o):
     return [np.asarray(o, dtype=float)]
 
 
-def agree(a, b, exact=False, tol=cc.TOL):
+def agree(a, b, exact=False, tol=cc.TOL, rtol=0.0):
     a, b = flat(a), flat(b)
     if len(a) != len(b):
         return False
@@ -31,7 +32,7 @@ def agree(a, b, exact=False, tol=cc.TOL):
         if exact:
             if not np.array_equal(x, y, equal_nan=True):
                 return False
-        elif not np.allclose(x, y, rtol=0, atol=tol, equal_nan=True):
+        elif not np.allclose(x, y, rtol=rtol, atol=tol, equal_nan=True):
             return False
     return True
 
@@ -202,12 +203,12 @@ def extra_parse(driver, line):
     return [None if x in ('nan', 'inf', '-inf') else F(x) for x in d[key].split(',')] if d[key] != '-' else []
 
 
-def run_pair(label, f, g, Wf, pred, exact, cond, res, t=2.5, rep=None):
+def run_pair(label, f, g, Wf, pred, exact, cond, res, t=2.5, rep=None, rtol=0.0):
     if _TIMEOUTS.get(label, 0) >= 2:
         res['skipped'] += 1; return
     tol = cc.TOL
     if rep:     # the same network stored in another dtype / memory layout: a fresh array per call, never normalised by a copy
-        mk = lambda: cc.represent(Wf, rep['dtype'], rep['order'])
+        mk = lambda: cc.represent(Wf, rep['dtype'], rep['order'], rep.get('negzero', False))
         tol = cc.rep_tol(rep['dtype']); exact = exact and rep['dtype'] != 'float32'
     else:
         mk = lambda: Wf.copy()
@@ -229,15 +230,59 @@ def run_pair(label, f, g, Wf, pred, exact, cond, res, t=2.5, rep=None):
         res['both_raise'][label] = res['both_raise'].get(label, 0) + 1; return
     if s1 != 'ok' or s2 != 'ok':
         res['fails'].append((label, pred, {'first': o1 if s1 != 'ok' else 'ok', 'second': o2 if s2 != 'ok' else 'ok'}, cond)); return
-    if not agree(o1, o2, exact, tol):
+    if not agree(o1, o2, exact, tol, rtol):
         res['fails'].append((label, pred, {'first': short(o1), 'second': short(o2)}, cond))
     elif any(np.any(np.nan_to_num(x, nan=0.0, posinf=0.0) != 0) for x in flat(o1)):
         res['nonzero'] = True
 
 
+def big_matrix(case):
+    """size / multiplicity axis: the matrix is rebuilt from its recipe (too large to ship as text)"""
+    g = case['big']
+    if g[0] == 'beads':
+        return cc.beads(g[1], g[2], g[3])
+    if g[0] == 'lattice':
+        return cc.lattice(g[1], g[2])
+    rs = np.random.RandomState(g[4])
+    A = cc.sparse01(rs, g[1], g[2], g[3], isolate=g[5])
+    if g[0] == 'weighted':      # generic weights on the same support (symmetric when undirected)
+        Wt = rs.randint(1, 10, size=A.shape) / 10.0
+        Wt = np.triu(Wt, 1) + np.triu(Wt, 1).T if not g[3] else Wt
+        A = A * Wt
+    return A
+
+
+def run_big(case):
+    """the pair equalities on a large / path-rich network: outputs of the two routines compared directly, exactly where the
+    pair is exact on small cases and the values are integers, else at 1e-9 relative + absolute (path counts beyond 2^53 are
+    rounded by both routines)"""
+    bct = import_bct()
+    Wf = big_matrix(case)
+    sym = bool(np.array_equal(Wf, Wf.T)); binary = bool(np.all((Wf == 0) | (Wf == 1)))
+    res = {'fails': [], 'npairs': 0, 'timeouts': 0, 'skipped': 0, 'rejected': 0, 'evals': {}, 'both_raise': {}, 'nonzero': False,
+           'model': [], 'model_fail': [], 'model2': [], 'n': len(Wf)}
+    cond = {'symmetric': sym, 'dtype': 'float64', 'order': 'C', 'big': case['big'][0]}
+    rep = case.get('rep')
+    if rep:
+        cond.update(dtype=rep['dtype'], order=rep['order'])
+    if binary:
+        for label, f, g, exact in pairs_on01(bct, sym):
+            run_pair(label, f, g, Wf, P01, False, dict(cond, pair=label), res, t=60.0, rep=rep, rtol=cc.TOL)
+    if sym:
+        for label, f, g, exact in pairs_symm(bct, binary):
+            run_pair(label, f, g, Wf, PSYM, False, dict(cond, pair=label), res, t=60.0, rep=rep, rtol=cc.TOL)
+    if not binary:
+        Bf = (Wf != 0).astype(float)
+        for label, f in ignoring(bct, sym, len(Wf)):
+            run_pair(label, f, lambda _W, f=f: f(Bf.copy()), Wf, PIGN, False, dict(cond, pair=label), res, t=60.0, rtol=cc.TOL)
+    return res
+
+
 def run_case(case):
     if case['kind'] == 'probe':
         return run_probe(case)
+    if case['kind'] == 'big':
+        return run_big(case)
     bct = import_bct()
     W, R = cc.case_mats(case)
     kind = case['kind']; n = len(W)
@@ -334,6 +379,28 @@ def gen_cases(rs, tier):
         for tag, M in cc.structured(rs, n, True):
             add('01d', M, 'struct-' + tag)
     cases += cc.add_reps(rs, cases, .3 if thorough else .2, ('01u', '01d'), ('symw', 'symg'))
+    # size / multiplicity axis: n crossing 12, 16/17, 32/33, 64/65, 100, 128/129, 160, 256/257 and networks with astronomically
+    # many equally short paths (predicates only: the Lean models are not run at these sizes)
+    big = []
+    sizes = cc.SIZES if thorough else sorted(set([int(x) for x in rs.choice(cc.SIZES[:9], 3, replace=False)] + [int(rs.choice(cc.SIZES[9:]))] + [17]))
+    for n in sizes:
+        for directed in (False, True):
+            for deg in ((2.5, 6.0) if thorough else (float(rs.choice([2.5, 4.0, 6.0])),)):
+                big.append(('random', n, deg, directed, int(rs.randint(2 ** 31)), int(rs.choice([0, 1, 3]))))
+        if thorough or rs.rand() < .5:
+            big.append(('weighted', n, 4.0, bool(rs.rand() < .5), int(rs.randint(2 ** 31)), 1))
+    rich = [('beads', 40, 3, False), ('beads', 40, 3, True), ('beads', 64, 2, False), ('beads', 22, 8, True), ('lattice', 10, True), ('lattice', 8, False)]
+    if thorough:
+        rich += [('beads', 64, 2, True), ('beads', 22, 8, False), ('beads', 45, 3, True), ('beads', 30, 4, False), ('beads', 6, 3, False),
+                 ('beads', 70, 2, True), ('lattice', 20, True), ('lattice', 16, False), ('beads', 54, 3, False)]
+    for g in big + rich:
+        cases.append({'kind': 'big', 'big': list(g), 'tag': 'big-' + g[0]})
+    k = 0
+    for g in (big + rich)[::2 if not thorough else 1]:      # and in other storage: -0.0 zeros, float32 / int / bool, Fortran order
+        if g[0] != 'weighted':
+            dt = cc.DT_BIN[k % len(cc.DT_BIN)]; k += 1
+            cases.append({'kind': 'big', 'big': list(g), 'tag': 'big-' + g[0] + '+rep',
+                          'rep': {'dtype': dt, 'order': cc.ORDERS[k % len(cc.ORDERS)], 'negzero': dt.startswith('float')}})
     cases += cc.make_probes(rs, cases, PROBE_SEQS, 520 if thorough else 110)
     # hidden state carried between calls only shows when a worker runs other routines / sizes before the call under test:
     # never group by routine or size
@@ -356,7 +423,13 @@ def main():
                        'weight-ignoring; local efficiency (LocalEff model) and undirected assortativity (Measures model) with their own correspondence here; density, breadthdist, kcoreness, edge_nei_overlap, findwalks, get_components are predicate-only',
                        'a call that hits the 2.5 s watchdog is re-tried once with 25 s; only a second timeout is a disagreement']
     ck.trusted = TRUSTED_DEFAULT + ['the Dist / Between / Core models used by the imported corollaries are tied to /repo by the C03 / C08 / C15 checks, not by this one']
+    # T-gen: whole bodies of the clustering / transitivity, betweenness (bin and wei) and binary efficiency routines re-extracted from
+    # /repo's current source; the C10 theorems relate exactly the model functions these are tied to
+    ck.cov['cores'] = cores.generate(families=['clust', 'betw', 'eff'])
+    for p_ in ck.cov['cores']['problems']:
+        ck.corr_break('core extractor (translate/cores.py)', p_)
     ok = ck.lean_gate(['BctVerif.Props.C10'], extra_modules=['BctVerif.Model.Cluster', 'BctVerif.Model.LocalEff', 'BctVerif.Model.Measures'])
+    ck.lean_gate([], gen_modules=['BctVerif.Gen.CoresClust', 'BctVerif.Gen.CoresBetw', 'BctVerif.Gen.CoresEff'])
     if ck.tier == 'thorough' and ok:
         ck.leanchecker(['BctVerif.Props.C10', 'BctVerif.Model.Cluster', 'BctVerif.Model.LocalEff'])
     if ck.replay:
@@ -378,6 +451,13 @@ def main():
         if v >= 5 and 2 * v > ev.get(k, 0):
             ck.violation(k, 'raises', {'pair': k, 'why': 'both variants raise on %d of %d evaluations' % (v, ev.get(k, 0))}, {'pair': k, 'kind': 'both-raise'})
     for c, r in zip(cases, results):
+        if c['kind'] == 'big':
+            ck.count('kind:big:' + c['big'][0]); ck.count('big n=%d' % r['n']); ck.count('pairs evaluated', r['npairs']); ck.count('timeouts', r['timeouts'])
+            ck.count('storage type rejected by one variant (OverflowError on int / TypeError on bool): no claim', r['rejected'])
+            ck.case(sample={'kind': 'big', 'recipe': c['big'], 'n': r['n'], 'pairs': r['npairs']}, nontrivial_key=digest(['big', c['big'], c.get('rep')]))
+            for label, pred, info, cond in r['fails']:
+                ck.violation(label, pred, {'case': c, 'pair': label, 'info': info}, cond)
+            continue
         if c['kind'] == 'probe':
             ck.count('kind:probe'); ck.count('probe:' + '>'.join(c['seq']))
             ck.case()
@@ -390,6 +470,7 @@ def main():
         ck.count('kind:' + c['kind']); ck.count('n=%d' % len(W)); ck.count('pairs evaluated', r['npairs']); ck.count('timeouts', r['timeouts']); ck.count('pairs skipped after repeated timeouts', r['skipped'])
         if c.get('rep'):
             ck.count('representation:%s/%s' % (c['rep']['dtype'], c['rep']['order']))
+            ck.count('representation: zeros stored as -0.0', int(bool(c['rep'].get('negzero'))))
             ck.count('storage type rejected by one variant (OverflowError on int / TypeError on bool): no claim', r['rejected'])
         for k, v in r['both_raise'].items():
             ck.count('both-raise:' + k, v)
